@@ -68,7 +68,7 @@ var genSteps = []string{".Name", ".Num", ".F", ".Ok", ".L", ".SL", ".M", ".IM", 
 	".Hello", ".PHello", ".Add(1, 2)", ".OkErr", ".Variadic(1, 2, 3)", ".TakesValue(z_int)", ".Self", ".Self.Name", ".Ptr.Name", ".NilPtr", ".NilPtr.Name", ".Extra", ".ZS.Name",
 	".0", ".1", ".2", ".k", ".a", ".b", ".x", ".Title", ".Count", ".Tags.0", ".V", "[0]", "[1]", "[\"k\"]", "[\"a\"]", "[\"Name\"]", "[1 + 1]", "[z_int]", "()", ".Year", ".Unix", ".String"}
 
-var genBadSteps = []string{".hidden", ".missing", ".99", ".Fail", ".Two", "[99]", "[-1]", "[z_nil]", "[z_str]", "[z_f64]", "[z_true]", "(1)", "(1, 2, 3)", "(z_str)", ".Add(1)", ".Add(\"a\", 2)", ".Hello()", ".Hello(1)", ".0.0", "[[1]]", ".M.nokey", "[z_ints]"}
+var genBadSteps = []string{"[\"hidden\"]", "[z_hiddenkey]", "[\"missing\"]", ".hidden", ".missing", ".99", ".Fail", ".Two", "[99]", "[-1]", "[z_nil]", "[z_str]", "[z_f64]", "[z_true]", "(1)", "(1, 2, 3)", "(z_str)", ".Add(1)", ".Add(\"a\", 2)", ".Hello()", ".Hello(1)", ".0.0", "[[1]]", ".M.nokey", "[z_ints]"}
 
 func (g *Gen) varName() string {
 	if len(g.locals) > 0 && g.r.Chance(40) {
